@@ -37,3 +37,31 @@ Theorem C16_outputs : forall gunzip redact writable files outs,
               Forall2 (fun f r => exists d, gunzip (snd f) = Some d /\ redact d = Some (snd r)) files res.
 Proof. exact per_file_ok. Qed.
 Print Assumptions C16_outputs.
+
+(* ---------- the whole command (Model/Job.v: main.go's Run end to end, on a file system) ---------- *)
+From Coq Require Import NArith.
+From Model Require Import Json Tables Walker Line Stream Base64 KeyFile Cli Job.
+From Proofs Require Import JobProofs JobAtlas.
+
+(* an Atlas job in an all-succeed world - the cluster description names [hosts], every host answers 200 with its body, every body is a gzip stream
+   that ends normally and whose log holds no over-long line, every <outputFile>.<j> can be created: the run ends with status 0, no downloaded log is
+   left, and for EVERY host index i the file <outputFile>.<i> holds precisely the redaction of host i's log under the active flags - not another
+   host's, not a part of it *)
+Theorem C16_job_outputs : forall tb cs a w fs1 fs2 enc hosts bodies cb i body data,
+  decide (flags_of a w) = CAccept MAtlas ->
+  stage_out a w = Some fs1 -> stage_key a w fs1 = Some (fs2, enc) ->
+  w_cluster (w_atlas w) = HStatus 200 cb -> w_hosts (w_atlas w) = Some hosts -> w_logs (w_atlas w) = ok_answers bodies ->
+  List.length bodies = List.length hosts ->
+  (forall j b, nth_error bodies j = Some b ->
+     (exists f, create fs2 (a_out a ++ "." ++ dec_of_nat j)%string = Some f) /\
+     exists d, w_gunzip w b = (d, REof) /\ snd (scan d REof) = SOk) ->
+  nth_error bodies i = Some body -> w_gunzip w body = (data, REof) ->
+  j_status (job tb cs a w) = Exit0 /\ j_tmp_left (job tb cs a w) = 0%nat /\
+  exists m, j_fs (job tb cs a w) (a_out a ++ "." ++ dec_of_nat i)%string = FFile (stream tb cs (a_cfg a) enc data) m.
+Proof. exact job_atlas_outputs. Qed.
+Print Assumptions C16_job_outputs.
+
+(* <outputFile>.<i> and <outputFile>.<j> are different files for different hosts *)
+Theorem C16_output_names_distinct : forall out i j, (out ++ "." ++ dec_of_nat i)%string = (out ++ "." ++ dec_of_nat j)%string -> i = j.
+Proof. exact out_path_inj. Qed.
+Print Assumptions C16_output_names_distinct.
